@@ -8,7 +8,7 @@ from vp.core import Stream
 from vp import coqfmt as q
 
 TRUSTED = [
-    "hand model Model/LikeGlob.v of workflow_state_query / _selector_in_outputs / check_polling_config "
+    "hand model Model/LikeGlob.v of workflow_state_query / _glob_escape / _selector_in_outputs / check_polling_config "
     "(status and output strings interned by the harness)",
     "SQLite LIKE / GLOB / == semantics modelled by hand (tmatch over tokens); validated on every run against the "
     "sqlite3 library of /venv/bin/python by the 'sqlite' stream",
@@ -193,12 +193,13 @@ class QueryStream(Stream):
         qs = lambda **kw: dict({"task": None, "cycle": None, "sel": "succeeded", "trigger": False,
                                 "message": False, "flow": None}, **kw)
         return [
-            # finding witnesses: '_' acts as a wildcard, '%' acts as a wildcard, matching ignores ASCII case
-            {"rows": [_row("axb"), _row("a_b1")], "q": qs(task="a_b*"), "kind": "witness"},
-            {"rows": [_row("axb"), _row("a%b")], "q": qs(task="a%b*"), "kind": "witness"},
-            {"rows": [_row("A_B1"), _row("a_b1")], "q": qs(task="a_b*"), "kind": "witness"},
+            # regression cases (witnesses of the LIKE defect fixed by 5844984): '_' / '%' must not act as
+            # wildcards and matching must be case sensitive
+            {"rows": [_row("axb"), _row("a_b1")], "q": qs(task="a_b*"), "kind": "regression"},
+            {"rows": [_row("axb"), _row("a%b")], "q": qs(task="a%b*"), "kind": "regression"},
+            {"rows": [_row("A_B1"), _row("a_b1")], "q": qs(task="a_b*"), "kind": "regression"},
             {"rows": [_row("a", cycle="2020T00Z"), _row("a", cycle="2020t00z")],
-             "q": qs(task="a", cycle="2020T*"), "kind": "witness"},
+             "q": qs(task="a", cycle="2020T*"), "kind": "regression"},
             # ordinary behaviour
             {"rows": rows, "q": qs(task="a_b"), "kind": "valid"},
             {"rows": rows, "q": qs(task="a*", flow=2), "kind": "valid"},
@@ -456,18 +457,18 @@ STREAMS = [QueryStream(), SqliteStream()]
 
 META = {
     "level_text": (
-        "Coq theorems over Model/LikeGlob.v for all tables, patterns and queries: the query as coded (LIKE after "
-        "'*'->'%') equals exact matching whenever the '*'-patterns contain no '_'/'%' and no character that equals a "
-        "recorded name's character only up to ASCII case (c40_query_exact_restricted), and always for patterns "
-        "without '*'; the unrestricted statement is refuted by a checked witness (c40_query_exact_refuted: 'a_b*' "
-        "returns 'axb' and 'A_B1') which is a known finding; flow filtering keeps exactly the instances in the "
-        "requested flow; _selector_in_outputs characterised; the proposed replacement GLOB(glob_escape pat) is proved "
-        "exact for all patterns. The query model is compared with the real CylcWorkflowDBChecker on generated sqlite "
-        "databases (real DAO schema) and the LIKE/GLOB models with sqlite3 itself."),
+        "Coq theorems over Model/LikeGlob.v for all tables, patterns and queries: the query as coded (SQLite GLOB on "
+        "the escaped pattern when it contains '*', == otherwise) returns exactly the recorded instances that match, "
+        "'*' = any sequence and every other character literal and case-sensitive, for every non-empty pattern "
+        "(c40_query_exact, via c40_fixed_glob_exact); flow filtering keeps exactly the instances in the requested flow; "
+        "_selector_in_outputs characterised; each instance is returned at most once. The query model is compared with "
+        "the real CylcWorkflowDBChecker on generated sqlite databases (real DAO schema, names with _ % mixed case) and "
+        "the LIKE/GLOB models with sqlite3 itself. The former LIKE defect (fixed by 5844984) is kept as labelled "
+        "legacy theorems and as regression cases in the corpus."),
     "level_note": (
         "Hand model (strings as code points, status/output strings interned); SQLite's matcher is modelled, not "
         "verified, and tied by differential runs (exhaustive small boxes in thorough). Cylc 7 back-compat DBs and "
-        "adjust_point_to_db are outside the model. The LIKE defect is listed in known_findings.d/C40.json."),
+        "adjust_point_to_db are outside the model. An empty pattern string means 'not given' (code: `if task:`)."),
     "technique": "Coq proof (induction over pattern tokens) + in-Coq differential correspondence (real DB checker, real sqlite) + regex oracle",
     "design_ref": "5/C40",
 }
